@@ -295,7 +295,7 @@ def run_property(pid, tier, seedv, only=None, jobs=None):
     for name, pl in per_law.items():
         for k, f in sorted(pl['failures'].items()):
             nviol += 1
-            d = os.path.join(ROOT, 'replays', pid)
+            d = os.path.join(os.environ.get('HX_REPLAY_DIR') or os.path.join(ROOT, 'replays'), pid)
             os.makedirs(d, exist_ok=True)
             rec = {'property': pid, 'law': name, 'key': k, 'case': f['case'], 'msg': f['msg'],
                    'observed': f['observed'], 'expected': f['expected'], 'seed': seedv, 'tier': tier}
@@ -339,7 +339,7 @@ def run_property(pid, tier, seedv, only=None, jobs=None):
         'assumptions': list(getattr(mod, 'ASSUMPTIONS', [])),
         'wall_s': round(time.time() - t0, 2), 'violations': nviol,
     }
-    if not only:
+    if not only and not os.environ.get('HX_NOEVIDENCE'):
         os.makedirs(os.path.join(ROOT, 'evidence'), exist_ok=True)
         with open(os.path.join(ROOT, 'evidence', '%s.json' % pid), 'w') as fh:
             json.dump(ev, fh, indent=1, sort_keys=True, default=repr)
